@@ -66,22 +66,35 @@ def coeff (n k : Int) : Outcome Int :=
 def prevRow (rows : Array (Array Int)) (i : Nat) : Option (Array Int) :=
   if i = 0 then none else rows[i-1]?
 
-/-- inner loop of `Coeffs`: `for j := 1; j < i/2+1; j++ {…}`; `tmp` is filled left to right, which is
-modelled by `push` (the zero-initialised tail of `tmp` is never read). -/
+/-- `addHasOverflowed(a, b)`: `sum = a + b` wrapped; `(sum^a)&(sum^b) < 0` says that the sign of `sum`
+differs from the sign of both operands. -/
+def addHasOverflowed (a b : Int) : Int × Bool :=
+  let sum := wrapInt (a + b)
+  (sum, (decide (sum < 0) != decide (a < 0)) && (decide (sum < 0) != decide (b < 0)))
+
+/-- inner loop of `Coeffs`: `for j := 1; j < i/2+1; j++ {…}`:
+```
+a, b := coeffs[i-1][j-1], coeffs[i-1][j-1]
+if 2*j != i { b = coeffs[i-1][j] }
+sum, overflow := addHasOverflowed(a, b)
+if overflow { panic("coeff does not fit in an int") }
+tmp[j] = sum
+```
+`tmp` is filled left to right, which is modelled by `push` (the zero-initialised tail of `tmp` is never read). -/
 def coeffsRowLoop (rows : Array (Array Int)) (i : Nat) : Nat → Nat → Array Int → Outcome (Array Int)
   | 0, _, tmp => .ok tmp
   | s+1, j, tmp =>
     match prevRow rows i with
     | none => .panic
     | some prev =>
-      if 2 * j = i then
-        match prev[j-1]? with
-        | some a => coeffsRowLoop rows i s (j+1) (tmp.push (wrapInt (2 * a)))
+      match prev[j-1]? with
+      | none => .panic
+      | some a =>
+        match (if 2 * j ≠ i then prev[j]? else some a) with
         | none => .panic
-      else
-        match prev[j-1]?, prev[j]? with
-        | some a, some b => coeffsRowLoop rows i s (j+1) (tmp.push (wrapInt (a + b)))
-        | _, _ => .panic
+        | some b =>
+          let (sum, overflow) := addHasOverflowed a b
+          if overflow then .panic else coeffsRowLoop rows i s (j+1) (tmp.push sum)
 
 /-- outer loop of `Coeffs`: `for i := 0; i <= n; i++` -/
 def coeffsLoop : Nat → Nat → Array (Array Int) → Outcome (Array (Array Int))
@@ -92,15 +105,9 @@ def coeffsLoop : Nat → Nat → Array (Array Int) → Outcome (Array (Array Int
     | .panic => .panic
     | .outOfFuel => .outOfFuel
 
-/-- `Coeffs(n)`: `make([][]int, n+1)` panics for `n < -1`. -/
+/-- `Coeffs(n)`: `make([][]int, n+1)` panics for `n < -1`; an entry that does not fit an `int` panics. -/
 def coeffs (n : Int) : Outcome (Array (Array Int)) :=
   if n + 1 < 0 then .panic else coeffsLoop (n + 1).toNat 0 #[]
-
-/-- `addHasOverflowed(a, b)`: `sum = a + b` wrapped; `(sum^a)&(sum^b) < 0` says that the sign of `sum`
-differs from the sign of both operands. -/
-def addHasOverflowed (a b : Int) : Int × Bool :=
-  let sum := wrapInt (a + b)
-  (sum, (decide (sum < 0) != decide (a < 0)) && (decide (sum < 0) != decide (b < 0)))
 
 /-- loop of `Rank`: `for i, v := range comb` -/
 def rankLoop : Nat → Int → List Int → Outcome Int
